@@ -114,10 +114,17 @@ def replay_file(path):
     mod = importlib.import_module(body["module"])
     fn = getattr(mod, body["fn"])
     args = literal_args(body["args"])
+    import inspect
     try:
-        r = fn(**args)
-        print(f"replay {body['fn']}({args}) returned {r!r}")
-        ok = r is not False
+        if not inspect.signature(fn).parameters:
+            # native obligation (its own z3 queries / enumeration): re-run it, it reports its own counterexample
+            r = fn()
+            print(f"replay {body['fn']}() -> {str(r)[:400]}")
+            ok = not (r is False or (isinstance(r, dict) and r.get("state") == "refuted"))
+        else:
+            r = fn(**args)
+            print(f"replay {body['fn']}({args}) returned {r!r}")
+            ok = r is not False
     except Exception as e:
         print(f"replay {body['fn']}({args}) raised {e!r}")
         ok = False
